@@ -159,6 +159,14 @@ def run(ctx):
     if not seen:
         ctx.bad('BaseManager.basic_disconnect', 'no-unmark', 'no path '
                 'both leaves the rooms and drops the mark', where(f))
+    ctx.rule('C04.R2', 'threaded server: the disconnect handler and the mark '
+             'are dominated by a true connected-test on the same (sid, '
+             'namespace) made in the same function - a verdict computed '
+             'earlier (by a caller, before other handlers ran) is stale '
+             '(shared rule)', floor=4)
+    from .c04 import r1_r2_site
+    for fname in ('disconnect', '_handle_disconnect'):
+        r1_r2_site(ctx, 'sync', fname)
     ctx.rule('C20.R4', 'whoever marks the client runs the disconnect handler: '
              'every path with a pre_disconnect mark triggers the '
              '\'disconnect\' event exactly once after it, whatever it '
